@@ -323,6 +323,8 @@ def configs(tier, seed):
     cfgs.append(Config('interpolate_variable na=2 n_wav=3 filters at 0,2', h_var(2, 3, (0, 2)), 3000))
     cfgs.append(Config('interpolate_variable na=3 n_wav=2 filters at 0,1', h_var(3, 2, (0, 1)), 3000))
     cfgs.append(Config('interpolate_variable na=1 n_wav=2', h_var(1, 2, (0, 1)), 600))
+    cfgs.append(Config('interpolate_variable na=2 n_wav=3 filters at 2,0 (unsorted)', h_var(2, 3, (2, 0)), 3000))
+    cfgs.append(Config('interpolate_variable na=2 n_wav=2 filters at 1,0 (unsorted)', h_var(2, 2, (1, 0)), 3000))
     cfgs.append(Config('interpolate_variable na=2 n_wav=2 a request beyond the table', h_var(2, 2, (0, 1), beyond=True), 1500))
     if not q:
         cfgs.append(Config('interpolate_variable na=3 n_wav=3 filters at 2,0 (unsorted)', h_var(3, 3, (2, 0)), 3000))
